@@ -3,12 +3,18 @@ Contract: spec/QuillContract.tla (ok20 + delivery ok03 clauses), TLC trace valid
 shrink at queue level: spec/UnboundedRA.tla / StreamContract (C02 machinery); the exit/reclaim protocol under release/acquire:
 spec/ExitRA.tla with the memory orders extracted from the code, replayed on the real ThreadContext and queue (tools/exitmodel.py)."""
 import json
-import sysfam, qsys, exitmodel
+import os
+import sysfam, qsys, exitmodel, stopmodel
 
 
 def run(ck):
     quick = ck.tier == "quick"
     exitmodel.run_for(ck)
+    # the same protocol on the REAL backend thread: a second thread logs and exits while the backend polls (spec/StopRA.tla,
+    # invariant NoReclaimLoss; harness/h_stop: the backend's own _cleanup_invalidated_thread_contexts decides)
+    stopmodel.run_for(ck)
+    if os.environ.get("VERIF_PART") == "ra":
+        return
     # shrink at queue level ("shrinking loses nothing"): the C02 machinery on the configurations that contain shrink requests -
     # consumer/producer interleavings inside prepare_read()/shrink() are not reachable from the system-level yield points
     import C02
@@ -27,7 +33,10 @@ def run(ck):
 
 
 def replay(ck, path):
-    if json.loads(open(path).read())["replay"].get("harness") == "h_exit":
+    hn = json.loads(open(path).read())["replay"].get("harness")
+    if hn == "h_exit":
         exitmodel.replay(path)
+    elif hn == "h_stop":
+        stopmodel.replay(path)
     else:
         qsys.replay(path)
